@@ -11,6 +11,7 @@ import (
 	"reflect"
 	"regexp"
 	"strconv"
+	"strings"
 	"sync"
 	"time"
 
@@ -156,6 +157,49 @@ func (u *URefl) Unpack(c *reflCfg) error {
 	return nil
 }
 
+// UVal implements IntUnpacker and Validator: the unpacked value has to be validated.
+type UVal struct{ V int64 }
+
+// Unpack records the value.
+func (u *UVal) Unpack(i int64) error {
+	if err := cb.hit("Unpack", "UVal", i, true); err != nil {
+		return err
+	}
+	u.V = i + 1000
+	return nil
+}
+
+// Validate reports to the simulator.
+func (u UVal) Validate() error { return cb.hit("Validate", "UVal", u.V, true) }
+
+// URe implements ConfigUnpacker the usual way: defaults, merge the settings over them, unpack the
+// result into a typed struct. A fault below it surfaces as a ucfg.Error about the re-rooted copy.
+type URe struct {
+	P int    `config:"p"`
+	Q string `config:"q"`
+}
+
+// Unpack re-roots the settings.
+func (u *URe) Unpack(c *ucfg.Config) error {
+	if err := cb.hit("Unpack", "URe", nil, true); err != nil {
+		return err
+	}
+	defaults, err := ucfg.NewFrom(map[string]interface{}{"p": uint64(1), "q": "dflt"})
+	if err != nil {
+		return err
+	}
+	if err := defaults.Merge(c); err != nil {
+		return err
+	}
+	type plain URe
+	var tmp plain
+	if err := defaults.Unpack(&tmp); err != nil {
+		return err
+	}
+	*u = URe(tmp)
+	return nil
+}
+
 // UAny implements Unpacker.
 type UAny struct{ V string }
 
@@ -298,12 +342,15 @@ const (
 	KPUStr
 	KMUCfg
 	KURefl
+	KUVal
+	KURe
+	KIfPInner
 	kindCount
 )
 
 var kindNames = [...]string{"int", "int8", "uint16", "float64", "string", "bool", "duration", "*int", "*string", "VInt", "VStr",
 	"UStr", "UInt", "UBool", "UFloat", "UAny", "UCfg", "[]int", "[]string", "[]VInt", "[2]int", "map[string]int", "map[string]interface{}",
-	"interface{}", "*Config", "DInt", "Inner", "*Inner", "struct", "*struct", "[]struct", "map[string]struct", "inline-struct", "float32", "map[string][]int", "map[string]VInt", "PI", "*[]int", "*duration", "UUint", "[]UStr", "[]UCfg", "[]map[string]int", "*regexp", "[2]struct", "[][]VInt", "map[string][]VInt", "uint64", "*UStr", "map[string]UCfg", "URefl"}
+	"interface{}", "*Config", "DInt", "Inner", "*Inner", "struct", "*struct", "[]struct", "map[string]struct", "inline-struct", "float32", "map[string][]int", "map[string]VInt", "PI", "*[]int", "*duration", "UUint", "[]UStr", "[]UCfg", "[]map[string]int", "*regexp", "[2]struct", "[][]VInt", "map[string][]VInt", "uint64", "*UStr", "map[string]UCfg", "URefl", "UVal", "URe", "interface{}(*Inner)"}
 
 func (k Kind) String() string { return kindNames[k] }
 
@@ -319,6 +366,7 @@ var leafTypes = map[Kind]reflect.Type{
 	KPDur:  reflect.TypeOf((*time.Duration)(nil)),
 	KUUint: reflect.TypeOf(UUint{}), KSUStr: reflect.TypeOf([]UStr(nil)), KSUCfg: reflect.TypeOf([]UCfg(nil)),
 	KSMap: reflect.TypeOf([]map[string]int(nil)), KRegex: tRegex,
+	KUVal: reflect.TypeOf(UVal{}), KURe: reflect.TypeOf(URe{}), KIfPInner: tIface,
 	KPUStr: reflect.TypeOf((*UStr)(nil)), KMUCfg: reflect.TypeOf(map[string]UCfg(nil)), KURefl: reflect.TypeOf(URefl{}),
 	KSSVInt: reflect.TypeOf([][]VInt(nil)), KMSVInt: reflect.TypeOf(map[string][]VInt(nil)), KU64: reflect.TypeOf(uint64(0)),
 	KMVInt: reflect.TypeOf(map[string]VInt(nil)), KPI: reflect.TypeOf(PI(0)), KPSInt: reflect.TypeOf((*[]int)(nil)),
@@ -339,6 +387,7 @@ type Field struct {
 	ID       string // simcheck id, unique per run
 	Policy   string // "", "replace", "append", "prepend" (slices)
 	Required bool
+	Ignore   bool   // the field carries the ignore option (next to others): nothing may touch it
 	Bound    string  // a built-in validator of the tag: "", "min=8", "max=50", "nonzero", "positive" (durations: "min=8s", "max=30s")
 	Sub      *Struct // for struct-like kinds
 }
@@ -375,6 +424,17 @@ func (s *Struct) build() {
 			tag = ",inline"
 		} else if f.Policy != "" {
 			tag += "," + f.Policy
+		}
+		if f.Ignore {
+			// several options in one tag, ignore among them
+			if len(f.ID)%2 == 0 {
+				tag += ",ignore"
+			} else {
+				tag = f.Name + ",ignore" + strings.TrimPrefix(tag, f.Name)
+			}
+			if f.Policy == "" {
+				tag += ",replace"
+			}
 		}
 		val := "simcheck=" + f.ID
 		if f.Bound != "" {
